@@ -47,6 +47,10 @@ func I2V(objs []interface{}, types []reflect.Type, isVariadic bool) ([]reflect.V
 
 // toValue 转化为数值
 func toValue(r interface{}, out reflect.Type, isVariadic bool) (reflect.Value, error) {
+	if r == nil && out.Kind() == reflect.Func {
+		// nil 对应 func 类型的零值
+		return reflect.Zero(out), nil
+	}
 	v := reflect.ValueOf(r)
 	if r != nil && v.Type() != out && (out.Kind() == reflect.Struct || out.Kind() == reflect.Ptr) {
 		if v.Type().Size() != out.Size() {
